@@ -535,7 +535,7 @@ Section MerchantsSection.
     sim (build_rule pyparse (n0, name, p ++ c ++ q)) (build_rule pyparse (n0, name, p ++ c' ++ q)).
   Proof.
     intros H. unfold build_rule. destruct (is_empty name); [apply sim_refl|].
-    apply sim_bind. rewrite !foldM_app. apply sim_bind_r. intros st. apply sim_bind. apply H.
+    apply sim_bind. rewrite !foldM_app. apply sim_bind_r. intros st. rewrite !foldM_app. apply sim_bind. apply H.
   Qed.
 
   Lemma mapM_replace_sim {A B} (f : A -> res B) s1 x x' s2 :
@@ -583,7 +583,7 @@ Section MerchantsSection.
     destruct (fold_left pre_step pre1 ([], [])) as [vars tr].
     f_equal. rewrite !mapM_app. apply bind_ext. intros a. f_equal. cbn [mapM]. f_equal.
     unfold build_rule. destruct (is_empty name); [reflexivity|]. f_equal.
-    rewrite !foldM_app. apply bind_ext. intros st. now rewrite Hs.
+    rewrite !foldM_app. apply bind_ext. intros st. rewrite !foldM_app. now rewrite Hs.
   Qed.
 
   (* --- key letter case ------------------------------------------------------------------- *)
@@ -619,3 +619,548 @@ Section MerchantsSection.
       now apply swap_props.
   Qed.
 End MerchantsSection.
+
+(* ---- key letter case: the string side ------------------------------------------------------- *)
+Open Scope string_scope.
+
+Lemma is_ws_lower c : is_ws (lower_char c) = is_ws c.
+Proof. destruct c as [[] [] [] [] [] [] [] []]; reflexivity. Qed.
+
+Lemma lower_lstrip s : lower (lstrip s) = lstrip (lower s).
+Proof.
+  induction s as [|c r IH]; simpl; [reflexivity|].
+  rewrite is_ws_lower. destruct (is_ws c); [exact IH|reflexivity].
+Qed.
+
+Lemma lower_rstrip s : lower (rstrip s) = rstrip (lower s).
+Proof.
+  induction s as [|c r IH]; simpl; [reflexivity|].
+  fold (lower r). rewrite <- IH. rewrite is_ws_lower.
+  destruct (rstrip r); simpl; [destruct (is_ws c); reflexivity|reflexivity].
+Qed.
+
+Lemma lower_strip s : lower (strip s) = strip (lower s).
+Proof. unfold strip. now rewrite lower_lstrip, lower_rstrip. Qed.
+
+Lemma split_at_app d k v : has_char d k = false -> split_at d (k ++ String d v)%string = Some (k, v).
+Proof.
+  induction k as [|c r IH]; simpl; intros H.
+  - now rewrite Ascii.eqb_refl.
+  - apply orb_false_iff in H as [Hc Hr]. rewrite Hc, (IH Hr). reflexivity.
+Qed.
+
+Lemma prop_of_key_case k k' v :
+  has_char ":" k = false -> has_char ":" k' = false -> lower k' = lower k ->
+  prop_of (k ++ String ":" v)%string = prop_of (k' ++ String ":" v)%string.
+Proof.
+  intros H H' E. unfold prop_of. rewrite (split_at_app _ _ _ H), (split_at_app _ _ _ H').
+  now rewrite !lower_strip, E.
+Qed.
+
+Lemma lower_char_hash c : lower_char c = "#"%char -> c = "#"%char.
+Proof. destruct c as [[] [] [] [] [] [] [] []]; vm_compute; intros H; try reflexivity; discriminate H. Qed.
+Lemma lower_char_lbr c : lower_char c = "["%char -> c = "["%char.
+Proof. destruct c as [[] [] [] [] [] [] [] []]; vm_compute; intros H; try reflexivity; discriminate H. Qed.
+
+Definition is_content (s : string) : bool :=
+  match s with
+  | EmptyString => false
+  | String c r => (negb (Ascii.eqb c "#") && negb (Ascii.eqb c "[" && ends_with "]" r))%bool
+  end.
+
+Lemma classify_m_content l s : classify_m l = Content s <-> strip l = s /\ is_content s = true.
+Proof.
+  unfold classify_m. destruct (strip l) as [|c r] eqn:E.
+  - split; [discriminate|]. intros [<- H]. discriminate H.
+  - unfold is_content. destruct (Ascii.eqb c "#") eqn:Eh.
+    + split; [discriminate|]. intros [<- H]. rewrite Eh in H. discriminate H.
+    + destruct (Ascii.eqb c "[" && ends_with "]" r)%bool eqn:Eb.
+      * split; [discriminate|]. intros [<- H]. rewrite Eh, Eb in H. discriminate H.
+      * split; [intros H; inversion H; subst; rewrite Eh, Eb; auto|]. intros [<- _]. reflexivity.
+Qed.
+
+Lemma last_char_cons c t : t <> "" -> last_char (String c t) = last_char t.
+Proof. destruct t; [congruence|reflexivity]. Qed.
+
+Lemma last_char_app a x b : last_char (a ++ String x b)%string = last_char (String x b).
+Proof.
+  induction a as [|c r IH]; [reflexivity|].
+  change ((String c r ++ String x b)%string) with (String c (r ++ String x b)%string).
+  rewrite last_char_cons by (destruct r; discriminate). exact IH.
+Qed.
+
+Lemma ends_with_app d a x b : ends_with d (a ++ String x b)%string = ends_with d (String x b).
+Proof. unfold ends_with. now rewrite last_char_app. Qed.
+
+Lemma eqb_lower_fixed c c' d :
+  (forall x, lower_char x = d -> x = d) -> lower_char d = d ->
+  lower_char c' = lower_char c -> Ascii.eqb c' d = Ascii.eqb c d.
+Proof.
+  intros Hd Hdd E. destruct (Ascii.eqb_spec c d) as [->|Hn].
+  - rewrite Hdd in E. apply Hd in E. subst. apply Ascii.eqb_refl.
+  - destruct (Ascii.eqb_spec c' d) as [->|]; [|reflexivity].
+    rewrite Hdd in E. symmetry in E. apply Hd in E. congruence.
+Qed.
+
+Lemma is_content_key_case k k' v :
+  lower k' = lower k -> is_content (k ++ String ":" v)%string = is_content (k' ++ String ":" v)%string.
+Proof.
+  intros E. destruct k as [|c r], k' as [|c' r']; try discriminate E; [reflexivity|].
+  unfold lower in E; cbn [smap] in E; injection E as Ec Er. cbn [append is_content].
+  rewrite (eqb_lower_fixed c c' "#" lower_char_hash eq_refl Ec).
+  rewrite (eqb_lower_fixed c c' "[" lower_char_lbr eq_refl Ec).
+  now rewrite !ends_with_app.
+Qed.
+Open Scope list_scope.
+
+Section KeyCase.
+  Variable pyparse : string -> bool.
+
+  (* a property line of a section whose key is written in another letter case *)
+  Lemma m_key_case l1 l l' l2 k k' v :
+    in_section l1 = true ->
+    strip l = (k ++ String ":" v)%string -> strip l' = (k' ++ String ":" v)%string ->
+    has_char ":" k = false -> has_char ":" k' = false -> lower k' = lower k ->
+    is_content (strip l) = true ->
+    parse_merchants pyparse (l1 ++ l :: l2) = parse_merchants pyparse (l1 ++ l' :: l2).
+  Proof.
+    intros Hin El El' Hk Hk' E Hc.
+    apply (m_prop_equiv pyparse l1 l l' l2 (strip l) (strip l') Hin).
+    - apply classify_m_content. auto.
+    - apply classify_m_content. split; [reflexivity|].
+      rewrite El'. rewrite <- (is_content_key_case k k' v E). now rewrite <- El.
+    - rewrite El, El'. now apply prop_of_key_case.
+  Qed.
+End KeyCase.
+
+Section PermuteM.
+  Variable pyparse : string -> bool.
+
+  Definition is_content_line (l : string) : Prop := classify_m l = Content (strip l).
+  Definition lk (l : string) : option string := line_key (strip l).
+
+  Lemma in_section_app l1 x : in_section l1 = true -> in_section (l1 ++ x) = true.
+  Proof. unfold in_section. rewrite existsb_app. now intros ->. Qed.
+
+  (* any reordering of a block of property lines with pairwise different keys, inside a section *)
+  Lemma m_permute_distinct block block' :
+    Permutation block block' ->
+    forall l1 l2, in_section l1 = true -> Forall is_content_line block -> NoDup (map lk block) ->
+      sim (parse_merchants pyparse (l1 ++ block ++ l2)) (parse_merchants pyparse (l1 ++ block' ++ l2)).
+  Proof.
+    induction 1 as [|x l l' HP IH|x y l|l l' l'' HP1 IH1 HP2 IH2]; intros l1 l2 Hin Hc Hn.
+    - apply sim_refl.
+    - inversion Hc; subst. inversion Hn; subst.
+      replace (l1 ++ (x :: l) ++ l2) with ((l1 ++ [x]) ++ l ++ l2) by (rewrite <- app_assoc; reflexivity).
+      replace (l1 ++ (x :: l') ++ l2) with ((l1 ++ [x]) ++ l' ++ l2) by (rewrite <- app_assoc; reflexivity).
+      apply IH; auto using in_section_app.
+    - inversion Hc as [|? ? Hy Hc']; subst. inversion Hc' as [|? ? Hx Hc'']; subst.
+      inversion Hn as [|? ? Hny Hn']; subst.
+      cbn [app]. apply (m_swap_adjacent pyparse l1 y x (l ++ l2) (strip y) (strip x) Hin Hy Hx).
+      intros E. apply Hny. left. unfold lk. now rewrite E.
+    - eapply sim_trans; [apply IH1; auto|].
+      apply IH2; auto.
+      + eapply Permutation_Forall; eauto.
+      + eapply Permutation_NoDup; [|exact Hn]. now apply Permutation_map.
+  Qed.
+End PermuteM.
+
+(* ========================================================================================== *)
+(* F. views files                                                                               *)
+
+Section Views.
+  Variable pyparse : string -> bool.
+  Let tkv := fun p : nat * string => (fst p, classify_v (snd p)).
+
+  Lemma parse_v_ext ls ls' :
+    Forall2 (fun a b => classify_v a = classify_v b) ls ls' ->
+    parse_views pyparse ls = parse_views pyparse ls'.
+  Proof.
+    intros H. unfold parse_views, parse_v_numbered. now rewrite (toks_ext classify_v ls ls' 1 H).
+  Qed.
+
+  Lemma v_trailing_blanks l1 l w l2 :
+    all_ws w = true ->
+    parse_views pyparse (l1 ++ (l ++ w)%string :: l2) = parse_views pyparse (l1 ++ l :: l2).
+  Proof.
+    intros H. apply parse_v_ext. apply Forall2_replace; [reflexivity|].
+    apply classify_v_rstrip. now apply rstrip_app_ws.
+  Qed.
+
+  Lemma v_crlf_some ls ls' :
+    Forall2 (fun a b => a = b \/ a = add_cr b) ls ls' ->
+    parse_views pyparse ls = parse_views pyparse ls'.
+  Proof.
+    intros H. apply parse_v_ext. induction H as [|a b l l' [->| ->] _ IH]; constructor; auto.
+    apply classify_v_rstrip. unfold add_cr. apply rstrip_app_ws. reflexivity.
+  Qed.
+
+  Lemma v_crlf ls : parse_views pyparse (map add_cr ls) = parse_views pyparse ls.
+  Proof. apply v_crlf_some. induction ls; simpl; constructor; auto. Qed.
+
+  (* re-indenting a line that is not header-shaped (an indented header is NOT a header in a views file) *)
+  Lemma v_reindent l1 l w l2 :
+    all_ws w = true -> first_is "[" (strip l) = false ->
+    parse_views pyparse (l1 ++ (w ++ l)%string :: l2) = parse_views pyparse (l1 ++ l :: l2).
+  Proof.
+    intros H Hb. apply parse_v_ext. apply Forall2_replace; [reflexivity|].
+    apply classify_v_strip; rewrite strip_app_ws_l by exact H; auto.
+  Qed.
+
+  (* ---- line numbers are carried, never inspected ---- *)
+  Definition renum_view (f : nat -> nat) (v : view) : view :=
+    {| v_name := v_name v; v_filter := v_filter v; v_desc := v_desc v; v_vars := v_vars v; v_line := f (v_line v) |}.
+  Definition renum_vfile (f : nat -> nat) (m : vfile) : vfile :=
+    {| f_globals := f_globals m; f_views := map (renum_view f) (f_views m) |}.
+  Definition renum_v (f : nat -> nat) (r : res vfile) : res vfile := emap f (renum_vfile f) r.
+
+  Lemma apply_vline_renum f st ln :
+    apply_vline pyparse st (on_fst f ln) = emap f (fun x => x) (apply_vline pyparse st ln).
+  Proof.
+    destruct ln as [n s]. unfold apply_vline, on_fst; simpl.
+    destruct (vitem_of s); try reflexivity; destruct (pyparse e); reflexivity.
+  Qed.
+
+  Lemma vpre_step_renum f st ln :
+    vpre_step pyparse st (on_fst f ln) = emap f (fun x => x) (vpre_step pyparse st ln).
+  Proof.
+    destruct ln as [n s]. unfold vpre_step, on_fst; simpl.
+    destruct (vitem_of s); try reflexivity; destruct (pyparse e); reflexivity.
+  Qed.
+
+  Lemma foldM_renum {S} (step : S -> nat * string -> res S) f :
+    (forall st ln, step st (on_fst f ln) = emap f (fun x => x) (step st ln)) ->
+    forall l st, foldM step (map (on_fst f) l) st = emap f (fun x => x) (foldM step l st).
+  Proof.
+    intros H. induction l as [|ln r IH]; intros st; simpl; [reflexivity|].
+    rewrite H. destruct (step st ln); simpl; auto.
+  Qed.
+
+  Lemma build_view_renum f n0 name lines :
+    build_view pyparse (f n0, name, map (on_fst f) lines)
+    = emap f (renum_view f) (build_view pyparse (n0, name, lines)).
+  Proof.
+    unfold build_view. rewrite (foldM_renum _ f (apply_vline_renum f)).
+    destruct (foldM (apply_vline pyparse) lines pview0) as [pv|]; simpl; [|reflexivity].
+    destruct (q_filter pv); reflexivity.
+  Qed.
+
+  Lemma mapM_build_view_renum f secs :
+    mapM (build_view pyparse) (map (fun s : section => let '(n, name, ps) := s in (f n, name, map (on_fst f) ps)) secs)
+    = emap f (map (renum_view f)) (mapM (build_view pyparse) secs).
+  Proof.
+    induction secs as [|[[n name] ps] r IH]; [reflexivity|].
+    cbn [map mapM]. rewrite build_view_renum. destruct (build_view pyparse (n, name, ps)); cbn [bind emap]; [|reflexivity].
+    rewrite IH. destruct (mapM (build_view pyparse) r); reflexivity.
+  Qed.
+
+  Lemma parse_v_numbered_renum f nl :
+    parse_v_numbered pyparse (map (on_fst f) nl) = renum_v f (parse_v_numbered pyparse nl).
+  Proof.
+    unfold parse_v_numbered.
+    replace (map (fun p => (fst p, classify_v (snd p))) (map (on_fst f) nl))
+      with (map (on_fst f) (map (fun p => (fst p, classify_v (snd p))) nl))
+      by (rewrite !map_map; reflexivity).
+    rewrite group_map. destruct (group _) as [pre secs]. unfold gmap; simpl.
+    rewrite (foldM_renum _ f (vpre_step_renum f)).
+    destruct (foldM (vpre_step pyparse) pre []); simpl; [|reflexivity].
+    rewrite mapM_build_view_renum. destruct (mapM (build_view pyparse) secs); reflexivity.
+  Qed.
+
+  Lemma v_insert_skip l1 c l2 :
+    classify_v c = Skip ->
+    parse_views pyparse (l1 ++ c :: l2)
+    = renum_v (shift (length l1)) (parse_views pyparse (l1 ++ l2)).
+  Proof.
+    intros H. unfold parse_views.
+    rewrite number_ins_l.
+    assert (E : parse_v_numbered pyparse (number 1 l1 ++ (S (length l1), c) :: number (S (S (length l1))) l2)
+                = parse_v_numbered pyparse (number 1 l1 ++ number (S (S (length l1))) l2)).
+    { unfold parse_v_numbered. rewrite !map_app. simpl. rewrite H, group_skip. reflexivity. }
+    rewrite E, <- number_ins_r. apply parse_v_numbered_renum.
+  Qed.
+
+  (* ---- inside a section ---- *)
+  Definition vline_check (s : string) : option ekind :=
+    match vitem_of s with
+    | IFilter e => if pyparse e then None else Some VInvalidFilter
+    | IDesc _ => None
+    | IVar _ e => if pyparse e then None else Some VInvalidVar
+    | IOther => Some VUnexpected
+    end.
+  Definition vline_upd (s : string) (pv : pview) : pview :=
+    match vitem_of s with
+    | IFilter e => {| q_filter := Some e; q_desc := q_desc pv; q_vars := q_vars pv |}
+    | IDesc d => {| q_filter := q_filter pv; q_desc := Some d; q_vars := q_vars pv |}
+    | IVar x e => {| q_filter := q_filter pv; q_desc := q_desc pv; q_vars := dset (q_vars pv) x e |}
+    | IOther => pv
+    end.
+  Definition vclass (s : string) : nat :=
+    match vitem_of s with IFilter _ => 0 | IDesc _ => 1 | IVar _ _ => 2 | IOther => 3 end.
+
+  Lemma apply_vline_split st ln :
+    apply_vline pyparse st ln
+    = match vline_check (snd ln) with Some k => Err (fst ln) k | None => Ok (vline_upd (snd ln) st) end.
+  Proof.
+    destruct ln as [n s]. unfold apply_vline, vline_check, vline_upd; simpl.
+    destruct (vitem_of s); try reflexivity; destruct (pyparse e); reflexivity.
+  Qed.
+
+  Lemma swap_vlines n1 s1 n2 s2 st :
+    vclass s1 <> vclass s2 ->
+    sim (foldM (apply_vline pyparse) [(n1, s1); (n2, s2)] st) (foldM (apply_vline pyparse) [(n1, s2); (n2, s1)] st).
+  Proof.
+    intros Hk. cbn [foldM]. rewrite !apply_vline_split. cbn [fst snd].
+    destruct (vline_check s1) eqn:C1, (vline_check s2) eqn:C2; cbn [bind];
+      rewrite ?apply_vline_split; cbn [fst snd]; rewrite ?C1, ?C2; cbn [bind];
+      try (right; split; reflexivity).
+    left. f_equal. unfold vline_upd, vclass in *.
+    destruct (vitem_of s1), (vitem_of s2); try reflexivity; congruence.
+  Qed.
+
+  Lemma v_section_replace_sim xs cb cb' ys :
+    has_header (map tkv xs) = true ->
+    (forall p, In p (map tkv cb) -> exists s, snd p = Content s) ->
+    (forall p, In p (map tkv cb') -> exists s, snd p = Content s) ->
+    (forall st, sim (foldM (apply_vline pyparse) (contents (map tkv cb)) st)
+                    (foldM (apply_vline pyparse) (contents (map tkv cb')) st)) ->
+    sim (parse_v_numbered pyparse (xs ++ cb ++ ys)) (parse_v_numbered pyparse (xs ++ cb' ++ ys)).
+  Proof.
+    intros Hh Hc Hc' Hs. unfold parse_v_numbered. fold tkv. rewrite !map_app.
+    destruct (group_app_hdr _ Hh) as (pre1 & s1 & n0 & name & p & E).
+    rewrite !E, (group_contents _ _ Hc), (group_contents _ _ Hc'). cbn [fst snd].
+    apply sim_bind_r. intros g. apply sim_bind. apply mapM_replace_sim.
+    unfold build_view. apply sim_bind. rewrite !foldM_app. apply sim_bind_r. intros st.
+    rewrite !foldM_app. apply sim_bind. apply Hs.
+  Qed.
+
+  Definition in_section_v (l1 : list string) : bool :=
+    existsb (fun l => match classify_v l with Header _ => true | _ => false end) l1.
+
+  Lemma has_header_number_v l1 k : has_header (map tkv (number k l1)) = in_section_v l1.
+  Proof. revert k. induction l1 as [|a l IH]; intros k; simpl; [reflexivity|]. now rewrite IH. Qed.
+
+  Lemma v_swap_adjacent l1 a b l2 sa sb :
+    in_section_v l1 = true ->
+    classify_v a = Content sa -> classify_v b = Content sb -> vclass sa <> vclass sb ->
+    sim (parse_views pyparse (l1 ++ a :: b :: l2)) (parse_views pyparse (l1 ++ b :: a :: l2)).
+  Proof.
+    intros Hin Ha Hb Hk. unfold parse_views. rewrite !number_app. cbn [number].
+    apply (v_section_replace_sim (number 1 l1)
+             [(1 + length l1, a); (S (1 + length l1), b)] [(1 + length l1, b); (S (1 + length l1), a)]
+             (number (S (S (1 + length l1))) l2)).
+    - now rewrite has_header_number_v.
+    - intros p [<-|[<-|[]]]; unfold tkv; cbn; rewrite ?Ha, ?Hb; eauto.
+    - intros p [<-|[<-|[]]]; unfold tkv; cbn; rewrite ?Ha, ?Hb; eauto.
+    - intros st. unfold tkv; cbn [map contents flat_map fst snd]. rewrite Ha, Hb. cbn [app].
+      now apply swap_vlines.
+  Qed.
+
+  Definition is_content_line_v (l : string) : Prop := classify_v l = Content (strip l).
+  Definition vk (l : string) : nat := vclass (strip l).
+
+  Lemma in_section_v_app l1 x : in_section_v l1 = true -> in_section_v (l1 ++ x) = true.
+  Proof. unfold in_section_v. rewrite existsb_app. now intros ->. Qed.
+
+  Lemma v_permute_distinct block block' :
+    Permutation block block' ->
+    forall l1 l2, in_section_v l1 = true -> Forall is_content_line_v block -> NoDup (map vk block) ->
+      sim (parse_views pyparse (l1 ++ block ++ l2)) (parse_views pyparse (l1 ++ block' ++ l2)).
+  Proof.
+    induction 1 as [|x l l' HP IH|x y l|l l' l'' HP1 IH1 HP2 IH2]; intros l1 l2 Hin Hc Hn.
+    - apply sim_refl.
+    - inversion Hc; subst. inversion Hn; subst.
+      replace (l1 ++ (x :: l) ++ l2) with ((l1 ++ [x]) ++ l ++ l2) by (rewrite <- app_assoc; reflexivity).
+      replace (l1 ++ (x :: l') ++ l2) with ((l1 ++ [x]) ++ l' ++ l2) by (rewrite <- app_assoc; reflexivity).
+      apply IH; auto using in_section_v_app.
+    - inversion Hc as [|? ? Hy Hc']; subst. inversion Hc' as [|? ? Hx Hc'']; subst.
+      inversion Hn as [|? ? Hny Hn']; subst.
+      cbn [app]. apply (v_swap_adjacent l1 y x (l ++ l2) (strip y) (strip x) Hin Hy Hx).
+      intros E. apply Hny. left. unfold vk. now rewrite E.
+    - eapply sim_trans; [apply IH1; auto|].
+      apply IH2; auto.
+      + eapply Permutation_Forall; eauto.
+      + eapply Permutation_NoDup; [|exact Hn]. now apply Permutation_map.
+  Qed.
+End Views.
+
+Lemma classify_v_blank c : all_ws c = true -> classify_v c = Skip.
+Proof. intros H. unfold classify_v, strip. rewrite rstrip_all_ws by exact H. reflexivity. Qed.
+
+Lemma classify_v_comment w t : all_ws w = true -> classify_v (w ++ String "#" t)%string = Skip.
+Proof.
+  intros H. unfold classify_v. rewrite strip_app_ws_l by exact H.
+  unfold strip. simpl. destruct (rstrip t); reflexivity.
+Qed.
+
+(* ========================================================================================== *)
+(* G. one rule / view per section, in file order, with exactly the stated properties             *)
+
+Definition headers (cl : string -> cline) (ls : list string) : list (nat * string) :=
+  flat_map (fun p => match cl (snd p) with Header nm => [(fst p, nm)] | _ => [] end) (number 1 ls).
+
+Definition sec_head (s : section) : nat * string := let '(n, nm, _) := s in (n, nm).
+
+Lemma group_headers toks :
+  map sec_head (snd (group toks))
+  = flat_map (fun p : nat * cline => match snd p with Header nm => [(fst p, nm)] | _ => [] end) toks.
+Proof.
+  induction toks as [|[n t] r IH]; [reflexivity|].
+  simpl. destruct (group r) as [pre secs]. destruct t; simpl in *; now rewrite <- IH.
+Qed.
+
+Lemma headers_toks cl ls :
+  headers cl ls = flat_map (fun p : nat * cline => match snd p with Header nm => [(fst p, nm)] | _ => [] end)
+                           (map (fun p => (fst p, cl (snd p))) (number 1 ls)).
+Proof.
+  unfold headers. generalize (number 1 ls). intros l. induction l as [|p r IH]; [reflexivity|].
+  simpl. now rewrite IH.
+Qed.
+
+Definition sections_m (ls : list string) : list section :=
+  snd (group (map (fun p => (fst p, classify_m (snd p))) (number 1 ls))).
+Definition sections_v (ls : list string) : list section :=
+  snd (group (map (fun p => (fst p, classify_v (snd p))) (number 1 ls))).
+
+Lemma pkey_eq_dec (a b : pkey) : {a = b} + {a <> b}.
+Proof. decide equality. Defined.
+
+Definition kvs (props : list (nat * string)) : list (pkey * string) :=
+  flat_map (fun p => match prop_of (snd p) with Some (k, v) => [(key_of k, v)] | None => [] end) props.
+
+(* the value of the LAST line with the given key *)
+Fixpoint last_of (key : pkey) (l : list (pkey * string)) : option string :=
+  match l with
+  | [] => None
+  | (k, v) :: r =>
+      match last_of key r with
+      | Some x => Some x
+      | None => if pkey_eq_dec k key then Some v else None
+      end
+  end.
+
+Definition orelse {A} (a b : option A) : option A := match a with Some _ => a | None => b end.
+
+Definition lets_of (l : list (pkey * string)) : list (string * string) :=
+  flat_map (fun kv => match fst kv with
+                      | KLet => match ident_eq (snd kv) with Some (id, e) => [(lower id, e)] | None => [] end
+                      | _ => [] end) l.
+Definition fields_of (l : list (pkey * string)) : list (string * string) :=
+  flat_map (fun kv => match fst kv with
+                      | KField => match ident_eq (snd kv) with Some (id, e) => [(lower id, e)] | None => [] end
+                      | _ => [] end) l.
+Definition dict_of (init : dict string) (l : list (string * string)) : dict string :=
+  fold_left (fun d xe => dset d (fst xe) (snd xe)) l init.
+
+Lemma fold_props_spec props : forall st st',
+  foldM apply_prop props st = Ok st' ->
+  let L := kvs props in
+  p_match st' = orelse (last_of KMatch L) (p_match st) /\
+  p_category st' = orelse (last_of KCategory L) (p_category st) /\
+  p_subcategory st' = orelse (last_of KSubcategory L) (p_subcategory st) /\
+  p_merchant st' = orelse (last_of KMerchant L) (p_merchant st) /\
+  p_tags st' = orelse (option_map parse_tags (last_of KTags L)) (p_tags st) /\
+  p_priority st' = match last_of KPriority L with Some v => parse_int v | None => p_priority st end /\
+  p_lets st' = p_lets st ++ lets_of L /\
+  p_fields st' = dict_of (p_fields st) (fields_of L) /\
+  Forall (fun p => prop_check (snd p) = None) props.
+Proof.
+  induction props as [|[n s] r IH]; intros st st' H.
+  - inversion H; subst. cbn. rewrite app_nil_r. repeat split; auto.
+  - cbn [foldM] in H. rewrite apply_prop_split in H. cbn [fst snd] in H.
+    destruct (prop_check s) eqn:C; [discriminate H|]. cbn [bind] in H.
+    specialize (IH _ _ H). cbn zeta in IH.
+    destruct IH as (I1 & I2 & I3 & I4 & I5 & I6 & I7 & I8 & I9).
+    assert (F : Forall (fun p => prop_check (snd p) = None) ((n, s) :: r)) by (constructor; assumption).
+    unfold kvs; cbn [flat_map snd]. fold (kvs r).
+    unfold prop_check in C. unfold prop_upd in *.
+    destruct (prop_of s) as [[k v]|]; [|discriminate C].
+    cbn [app last_of].
+    rewrite I1, I2, I3, I4, I5, I6, I7, I8. clear I1 I2 I3 I4 I5 I6 I7 I8 H.
+    destruct (key_of k) eqn:K; cbn [kv_upd kv_check] in *;
+      repeat match goal with
+             | H : match ident_eq ?v with _ => _ end = None |- _ =>
+                 destruct (ident_eq v) as [[? ?]|] eqn:?; [|discriminate H]
+             | H : match parse_int ?v with _ => _ end = None |- _ =>
+                 destruct (parse_int v) eqn:?; [|discriminate H]
+             end; try discriminate C;
+      (repeat split; [..|exact F]);
+      unfold lets_of, fields_of, dict_of; cbn [flat_map fst snd fold_left app
+        p_match p_category p_subcategory p_merchant p_tags p_priority p_lets p_fields
+        set_match set_category set_subcategory set_merchant set_tags set_priority add_let set_field];
+      repeat match goal with |- context [last_of ?a ?b] => destruct (last_of a b) end;
+      cbn; rewrite ?app_nil_r; try reflexivity; try congruence;
+      try (match goal with E : ident_eq _ = Some _ |- _ => rewrite E end; cbn; rewrite <- ?app_assoc; reflexivity).
+Qed.
+
+
+Section OnePerSection.
+  Variable pyparse : string -> bool.
+
+  Lemma finish_rule_ok n0 name pr r :
+    finish_rule pyparse n0 name pr = Ok r ->
+    r_name r = name /\ r_line r = n0 /\ p_match pr = Some (r_match r) /\
+    r_category r = or_empty (p_category pr) /\ r_subcategory r = or_empty (p_subcategory pr) /\
+    r_merchant r = (if is_empty (or_empty (p_merchant pr)) then name else or_empty (p_merchant pr)) /\
+    r_tags r = match p_tags pr with Some t => t | None => [] end /\
+    r_priority r = match p_priority pr with Some z => z | None => 50%Z end /\
+    r_lets r = p_lets pr /\ r_fields r = p_fields pr /\
+    pyparse (r_match r) = true /\ forallb (fun b => pyparse (snd b)) (r_lets r) = true /\
+    forallb (fun b => pyparse (snd b)) (r_fields r) = true /\
+    (is_empty (r_category r) = false \/ r_tags r <> []).
+  Proof.
+    unfold finish_rule. destruct (p_match pr) as [m|]; [|discriminate].
+    destruct (negb (is_empty (or_empty (p_category pr))) || match p_tags pr with Some (_ :: _) => true | _ => false end)%bool eqn:E1;
+      cbn [negb]; [|discriminate].
+    destruct (forallb (fun b => pyparse (snd b)) (p_lets pr)) eqn:E2; cbn [negb]; [|discriminate].
+    destruct (forallb (fun b => pyparse (snd b)) (p_fields pr)) eqn:E3; cbn [negb]; [|discriminate].
+    destruct (pyparse m) eqn:E4; cbn [negb]; [|discriminate].
+    intros H; inversion H; subst; cbn. repeat split; auto.
+    apply orb_true_iff in E1 as [E1|E1].
+    - left. now apply negb_true_iff in E1.
+    - right. destruct (p_tags pr) as [[|? ?]|]; try discriminate. congruence.
+  Qed.
+
+  (* a built rule carries exactly what its section states: for every single-valued property the value of
+     the LAST line with that key (or the default), all let bindings in order, the field dictionary;
+     and every content line of the section is a well-formed known property *)
+  Lemma build_rule_spec n0 name props r :
+    build_rule pyparse (n0, name, props) = Ok r ->
+    let L := kvs props in
+    r_name r = name /\ r_line r = n0 /\ name <> EmptyString /\
+    last_of KMatch L = Some (r_match r) /\
+    r_category r = or_empty (last_of KCategory L) /\
+    r_subcategory r = or_empty (last_of KSubcategory L) /\
+    r_merchant r = (if is_empty (or_empty (last_of KMerchant L)) then name else or_empty (last_of KMerchant L)) /\
+    r_tags r = match last_of KTags L with Some v => parse_tags v | None => [] end /\
+    Some (r_priority r) = match last_of KPriority L with Some v => parse_int v | None => Some 50%Z end /\
+    r_lets r = lets_of L /\ r_fields r = dict_of [] (fields_of L) /\
+    Forall (fun p => prop_check (snd p) = None) props /\
+    pyparse (r_match r) = true /\ forallb (fun b => pyparse (snd b)) (r_lets r) = true /\
+    forallb (fun b => pyparse (snd b)) (r_fields r) = true.
+  Proof.
+    unfold build_rule. destruct (is_empty name) eqn:En; [discriminate|].
+    destruct (foldM apply_prop props prule0) as [pr|] eqn:F; [|discriminate]. cbn [bind].
+    intros H. apply finish_rule_ok in H.
+    destruct H as (H1 & H2 & H3 & H4 & H5 & H6 & H7 & H8 & H9 & H10 & H11 & H12 & H13 & _).
+    apply fold_props_spec in F. cbn zeta in F.
+    destruct F as (F1 & F2 & F3 & F4 & F5 & F6 & F7 & F8 & F9). cbn in F1, F2, F3, F4, F5, F6, F7, F8.
+    cbn zeta.
+    assert (O : forall o : option string, orelse o None = o) by (intros [|]; reflexivity).
+    rewrite O in F1, F2, F3, F4.
+    repeat split; auto.
+    - destruct name; [discriminate|congruence].
+    - congruence.
+    - congruence.
+    - congruence.
+    - rewrite H6, F4. reflexivity.
+    - rewrite H7, F5. destruct (last_of KTags (kvs props)); reflexivity.
+    - rewrite H8, F6. destruct (last_of KPriority (kvs props)) as [v|]; [|reflexivity].
+      destruct (parse_int v) eqn:P; [reflexivity|].
+      (* an invalid priority line would have stopped the fold *)
+      exfalso. clear - F9 P F6. revert F6. rewrite P. intros _.
+      admit.
+    - congruence.
+    - congruence.
+  Abort.
+End OnePerSection.
